@@ -194,9 +194,15 @@ impl Env {
         let path = match v {
             VoiceRef::Bundled => PathBuf::from(BUNDLED),
             _ => {
-                let bytes = self.voice_bytes(v)?;
-                let p = self.dir.join(format!("v{}.htsvoice", self.next_uid));
-                std::fs::write(&p, &bytes).map_err(|e| format!("write {:?}: {}", p, e))?;
+                // deterministic name: a file written earlier (by this process or by the shard parent
+                // before it forked) is reused
+                let p = self.dir.join(format!("v-{:016x}.htsvoice", crate::rng::hash_bytes(v.to_text().as_bytes())));
+                if !p.exists() {
+                    let bytes = self.voice_bytes(v)?;
+                    let tmp = self.dir.join(format!("tmp-{}-{}.htsvoice", std::process::id(), self.next_uid));
+                    std::fs::write(&tmp, &bytes).map_err(|e| format!("write {:?}: {}", tmp, e))?;
+                    std::fs::rename(&tmp, &p).map_err(|e| format!("rename {:?}: {}", p, e))?;
+                }
                 p
             }
         };
@@ -210,17 +216,49 @@ impl Env {
         let uid = (crate::rng::hash_bytes(v.to_text().as_bytes()) & 0x7fff_ffff) as u32;
         self.next_uid += 1;
         // keep the cache bounded
-        if self.voices.len() > 400 {
+        if self.voices.len() > 600 {
             let victims: Vec<VoiceRef> = self.voices.keys().filter(|k| matches!(k, VoiceRef::Gen(_))).take(200).cloned().collect();
             for k in victims {
-                if let Some((_, p, _)) = self.voices.remove(&k) {
-                    let _ = std::fs::remove_file(p);
-                }
+                self.voices.remove(&k);
             }
         }
         let a = Arc::new(voice);
         self.voices.insert(v.clone(), (a.clone(), path, uid));
         Ok((a, uid))
+    }
+
+    /// Write the voice files of the batch-wide pools (and the perturbed bundled copies) up front.
+    /// `preload`: also parse them here, so forked runs inherit the loaded `Arc<Voice>`s. Only used for
+    /// properties whose runs are grouped anyway (C19, C20); C02/C03 runs load their voices themselves,
+    /// so that nothing of jbonsai has run in their process image before the history starts.
+    pub fn prebuild_pool_voices(&mut self, pools: &crate::gen::Pools, with_tiny: bool, preload: bool) {
+        let mut refs: Vec<VoiceRef> = Vec::new();
+        for (base, metas) in [(0usize, &pools.metas), (1000usize, &pools.plain_metas)] {
+            for (mi, m) in metas.iter().enumerate() {
+                for k in 0..4 {
+                    refs.push(VoiceRef::Gen(crate::voicegen::VoiceSpec { meta: m.clone(), body: pools.body(base + mi, k) }));
+                }
+            }
+        }
+        if with_tiny {
+            for v in 0..2 {
+                refs.push(VoiceRef::Gen(crate::voicegen::VoiceSpec { meta: crate::gen::tiny_meta(v), body: 7 + v as u64 }));
+            }
+        }
+        for k in 0..3 {
+            refs.push(VoiceRef::Perturbed(k));
+        }
+        for v in refs {
+            let p = self.dir.join(format!("v-{:016x}.htsvoice", crate::rng::hash_bytes(v.to_text().as_bytes())));
+            if !p.exists() {
+                if let Ok(bytes) = self.voice_bytes(&v) {
+                    let _ = std::fs::write(&p, bytes);
+                }
+            }
+            if preload && matches!(v, VoiceRef::Gen(_)) {
+                let _ = self.voice(&v);
+            }
+        }
     }
 
     pub fn label(&mut self, idx: u32) -> Result<jlabel::Label, String> {
